@@ -12,7 +12,7 @@ from ..report import Report
 
 PROP = 'C20'
 
-NAMES = ['m', 'm_', 'm__', 'get2', 'a_b', '_m', '__m', '__m__', '_m_']
+NAMES = ['m', 'm_', 'm__', 'get2', 'a_b', '_m', '__m', '__m__', '_m_', 'flush_async', 'async_']
 SIGS = ['()', '(a)', '(a, b=1)', '(*a)', '(**k)', '(a, *r, **k)']
 ARGS = [((), {}), ((1,), {}), ((1, 'x'), {}), ((None,), {'b': 2}), ((), {'a': 1, 'b': [1]}), (('é', 2, 3), {'k': 'v'}),
         # keyword names that collide with names the proxy / dispatcher use themselves
